@@ -5,4 +5,4 @@ D=/verif/seeded/$P-$L
 mkdir -p $D; cp $W/out/* $D/ || exit 2
 git -C /repo worktree remove --force $W >/dev/null 2>&1
 echo "== $P-$L verify"; timeout 900 /verif/tools/verify_seed.sh $D 2>&1 | tail -1
-echo "== $P-$L try"; timeout 1500 /verif/tools/try_seed_wt.sh $D $P --tier quick 2>&1 | grep -E "signature:|tier=|try_seed" | cut -c1-250 | head -6
+echo "== $P-$L try"; timeout 2400 /verif/tools/try_seed_wt.sh $D $P --tier quick --budget 30m 2>&1 | grep -E "signature:|tier=|try_seed" | cut -c1-250 | head -6
